@@ -72,6 +72,11 @@ chk("C19",
     "Seeded exploration over (world, outer/inner packs, rule DB, inner slicing, interrupts).",
     SEARCH_NOTE + " SpecificationNotFound from an expansion is accepted only when the inner pack is masked (the world cannot then confirm that a specification exists), so a broken retry-with-reverse path is only seen through wrong or invalid results, not through a missing one.", "6.19")
 
+chk("C13",
+    "deterministic simulation: the two searchers are driven through seeded pre-expansion prefixes with faults (levels, time-limit interrupts at chosen packets via the simulated clock, pickle restarts) before being handed to either finder variant; totality, C01/C02 validators on both members and Isomorphism.check in both directions",
+    "Seeded exploration; the input dimension (pairs of classes and packs) dominates, the schedule dimension is the hand-over state of the two stateful searchers.",
+    SEARCH_NOTE + " Atom-only verification and the default rule DB, as the finder requires. Known finding K2 is reported as KNOWN-FINDING.", "6.13")
+
 NA.update({
  "C07": "pure function of (specification, n, parameters): no clock, random source, I/O, ordering or restart point is involved, so there is no schedule or fault for a simulator to vary (DESIGN.md section 7)",
  "C09": "pure function of (rule form, n) given the children's term tables; nothing schedule-, fault- or history-dependent (DESIGN.md section 7)",
